@@ -184,7 +184,11 @@ def run_harness(loaded: Loaded, ob, cfg, shard=None):
     f = ob["func"]
     opts = dict(ob["opts"])
     if shard is not None:
-        opts["shard"] = shard
+        opts["shard"] = tuple(shard[:2])
+        if len(shard) > 2:
+            opts["shard_mode"] = shard[2]
+        if len(shard) > 3:
+            opts["shard_depth"] = shard[3]
     verifies = opts.get("verifies")
     if isinstance(verifies, str):
         verifies = [verifies]
